@@ -1,4 +1,4 @@
-CONSTANTS Mode = "mcep"  Orders <- OrdersQ  Salts = {0, 1, 2}  Alphas <- AlphasQ  Rates <- RatesQ  Betas = {0}  Stages = {1}
+CONSTANTS Mode = "mcep"  Orders <- OrdersQ  Salts = {0, 1, 2, 3}  Alphas <- AlphasQ  Rates <- RatesQ  Betas = {0}  Stages = {1}
 SPECIFICATION Spec
 INVARIANTS Emit Pre
 CHECK_DEADLOCK FALSE
